@@ -62,7 +62,8 @@ def sim_changes(draw, spec, allow_bad=True, reachable_only=True):
         elif r < 0.3:
             bad = "over_capacity"
         elif r < 0.38:
-            bad = draw(st.sampled_from(["value_of_another_object", "same_new_value_twice"]))
+            bad = draw(st.sampled_from(["value_of_another_object", "same_new_value_twice",
+                                        "computed_value_without_label"]))
     return out, bad
 
 
@@ -151,7 +152,8 @@ def build_changes(objs, spec, sim):
             srv = objs[plain[0]]
             if not any(c[0] is srv.base_ram_consumption for c in changes):
                 changes.append([srv.base_ram_consumption, SourceValue(srv.ram.value * 5)])
-    if sim["bad"] in ("value_of_another_object", "same_new_value_twice") and len(comp["ups"]) >= 1:
+    if sim["bad"] in ("value_of_another_object", "same_new_value_twice", "computed_value_without_label") and \
+            len(comp["ups"]) >= 1:
         # "give this device the power of that one": the new value is the very value another object holds; or one new
         # value object used for two inputs. Neither can work; the baseline must not be touched.
         devs = sorted({d for up_ in comp["ups"] for d in spec["objs"][up_]["devices"]})
@@ -159,6 +161,8 @@ def build_changes(objs, spec, sim):
         if devs and srvs and not any(c[0] is objs[srvs[0]].power or c[0] is objs[devs[0]].power for c in changes):
             if sim["bad"] == "value_of_another_object":
                 changes.append([objs[srvs[0]].power, objs[devs[0]].power])
+            elif sim["bad"] == "computed_value_without_label":
+                changes.append([objs[srvs[0]].power, objs[devs[0]].power * SourceValue(2 * u.dimensionless)])
             else:
                 nv = SourceValue(77 * u.W)
                 changes += [[objs[srvs[0]].power, nv], [objs[devs[0]].power, nv]]
